@@ -389,6 +389,23 @@ func (sh shadow) apply(op stor.Op) {
 	}
 }
 
+// takeImage materialises an image for the given seed and repairs one inadmissible effect of
+// stor.ImageLocked: a file without any unsynced tail (everything fsynced) must come back exactly as it
+// is - the zeros/garbage that the cut+zeros / cut+garbage policies append to such a file could
+// retroactively complete a torn record that an earlier recovery already treated as absent (seen with
+// nested crashes: a manifest record cut one 0x00 byte short, "healed" by zeros appended one level deeper).
+func (sh shadow) takeImage(s *stor.Stor, seed uint64) *stor.Stor {
+	img := s.ImageLocked(rng.New(seed))
+	for fd, f := range sh {
+		if f[0] == f[1] && fd.Type != storage.TypeTable {
+			if b, ok := img.FileBytes(fd); ok && len(b) > f[0] {
+				img.PutFile(fd, b[:f[0]])
+			}
+		}
+	}
+	return img
+}
+
 var tailNames = [...]string{"lost", "kept", "cut", "cut+zeros", "cut+garbage"}
 
 // policies replays the draws of stor.imageLocked for the given seed and returns, per file with a
@@ -605,7 +622,7 @@ func (e *crashEnv) allowed(ic *imgCase) func(id int) bool {
 func (e *crashEnv) replay(ic *imgCase, pristine *stor.Stor, extra map[string]interface{}) map[string]interface{} {
 	rp := map[string]interface{}{
 		"workload": e.spec, "crash_path": ic.path, "issued_before_crash": ic.issued, "acked_before_crash": idRanges(ic.acked),
-		"how": "run the workload (wlSpec.gen with workload_seed) on stor.Stor with these options; in the Before hook of storage op op_seq take stor.ImageLocked(rng.New(image_seed)); reopen the image (nested entries: repeat during that reopen); the image bytes below make the case self-contained",
+		"how": "run the workload (wlSpec.gen with workload_seed) on stor.Stor with these options; in the Before hook of storage op op_seq take stor.ImageLocked(rng.New(image_seed)) and cut files that had no unsynced tail back to their length (shadow.takeImage); reopen the image (nested entries: repeat during that reopen); the image bytes below make the case self-contained",
 	}
 	if im := imageHex(pristine); im != nil {
 		rp["image"] = im
@@ -641,7 +658,7 @@ func (e *crashEnv) check(ic *imgCase, r *rng.R) {
 				for _, p := range pols {
 					c.Res.Count("tail_policy", p)
 				}
-				nested = append(nested, &imgCase{img: s.ImageLocked(rng.New(seed)), issued: ic.issued, acked: ic.acked,
+				nested = append(nested, &imgCase{img: sh.takeImage(s, seed), issued: ic.issued, acked: ic.acked,
 					path: append(append([]crashPoint(nil), ic.path...), crashPoint{op.Seq, "recovery:" + string(op.Kind) + "/" + fdName(op.Fd), seed})})
 				c.Res.Count("crash_op", "recovery:"+string(op.Kind)+"/"+stor.FtName(op.Fd.Type))
 			}
@@ -858,7 +875,7 @@ func (cr *crashRun) run(r *rng.R) {
 			if unsynced == 0 {
 				c.Res.Count("tail_policy", "nothing-unsynced")
 			}
-			ic := &imgCase{img: s.ImageLocked(rng.New(seed)), issued: issued, acked: acked, path: []crashPoint{{op.Seq, opName, seed}}}
+			ic := &imgCase{img: sh.takeImage(s, seed), issued: issued, acked: acked, path: []crashPoint{{op.Seq, opName, seed}}}
 			e.check(ic, cr2)
 			atomic.AddInt64(&e.progress, 1)
 		}
